@@ -5,11 +5,14 @@ import (
 )
 
 func (p *Pool) Stop() {
-	defer p.runM.Unlock()
-	if p.runM.TryLock() {
+	p.lifeM.Lock()
+	defer p.lifeM.Unlock()
+
+	if !p.running {
 		slog.Warn("worker pool already stopped")
 		return
 	}
+	p.running = false
 
 	p.stopM.Lock()
 	p.stopped = true
@@ -18,7 +21,9 @@ func (p *Pool) Stop() {
 	p.cancel()
 	p.sendWg.Wait()
 	p.runWg.Wait()
-
 	close(p.ch)
+
+	p.listM.Lock()
 	p.el.Clear()
+	p.listM.Unlock()
 }
